@@ -232,7 +232,8 @@ pub fn run(run: &Run) {
     run.assume("names limited to the per-format alphabet N_F; nesting <= 3 except towers");
     let tier = run.tier;
     for f in fmts::all() {
-        let terms = u::u_term(&f, tier);
+        let mut terms = u::u_term(&f, tier);
+        terms.extend(u::huge_terms(4097).into_iter().filter(|r| r.size() > 1000 && !(r.tag == Tag::Product && r.kids.len() == 600) || r.name.len() > 1000 || r.kids.iter().any(|k| k.name.len() > 1000))); // the part u_term leaves out
         let mut vals: Vec<V> = terms.into_iter().map(V::term).collect();
         vals.extend(u::u_sent(&f));
         if f.name == "han" {
